@@ -1,10 +1,12 @@
 import PdeVerif.Json
 import PdeVerif.Model.ParLoop
+import PdeVerif.Model.SetterSeq
+import PdeVerif.Model.OutAlias
 import PdeVerif.Drv.C01
 import PdeVerif.Drv.C02
 namespace PdeVerif.Drv.C03
 open Lean PdeVerif PdeVerif.Stencil PdeVerif.BC
-open PdeVerif.Drv.C02 (arrFn parseCond)
+open PdeVerif.Drv.C02 (arrFn parseCond parseFaces allIdx getArr)
 open PdeVerif.Drv.C01 (parseCfg ranks applyAt outIdx Cfg)
 
 /-- {"cfg": {...as c01...}, "data": [padded input incl. components], "faces": [...as c02.ghost...]}
@@ -48,5 +50,54 @@ def writes (j : Json) : Except String Json := do
     Json.arr ((List.range n).map (fun c => match o c with | some v => jQ v | none => Json.null)).toArray
   pure (Json.arr #[enc o1, enc o2])
 
-def handlers : List (String × Handler) := [("c03.apply", apply), ("c03.writes", writes)]
+/-- model of the **compiled** ghost-cell setter (sequential loops on the live array, `chain`), same request as `c02.ghost2`:
+{"shape":[..], "rank":r, "dim":d, "data":[..], "faces":[{"axis","upper","normal","dx","cond"}]} ->
+{"a": full array after `BC.compiledSetterLog` (read through `BC.readLog`), "div0": flat indices computed by a division by
+zero, "stores": number of element stores executed} -/
+def seqghost (j : Json) : Except String Json := do
+  let shape ← fldNs j "shape"
+  let rank ← fldN j "rank"
+  let dim ← fldN j "dim"
+  let data ← getArr j "data"
+  let fshape := List.replicate rank dim ++ shape.map (· + 2)
+  let a0 : List Int → Rat := arrFn fshape data
+  let (faces, _) ← parseFaces j shape rank
+  let mut axes : List ((Face × Rat × Cond Rat) × (Face × Rat × Cond Rat)) := []
+  for ax in List.range shape.length do
+    let lo := faces.find? (fun fc => fc.1.axis == ax && fc.1.side == Side.lower)
+    let hi := faces.find? (fun fc => fc.1.axis == ax && fc.1.side == Side.upper)
+    match lo, hi with
+    | some l, some h => axes := axes ++ [(l, h)]
+    | _, _ => throw s!"axis {ax}: both sides are needed"
+  let log := compiledSetterLog dim axes a0
+  let all := allIdx fshape
+  let div0 := (all.zipIdx).filterMap (fun (p : List Int × Nat) =>
+    if faces.any (fun fc => fc.1.writes p.1 && divByZero fc.1 fc.2.1 fc.2.2 p.1) then some p.2 else none)
+  pure (Json.mkObj [("a", jQs (all.map (readLog log a0))), ("div0", toJson div0), ("stores", toJson log.length)])
+
+/-- the `out=` contract on the memory model (`Model/OutAlias.lean`), 1-d Cartesian Laplacian:
+{"padded": [line incl. the two ghost cells, after the setter], "scale": 1/dx², "junk": previous content of a separate `out`}
+-> {"wrapper_aliased": `make_operator` wrapper with `out = arr`, "wrapper_fresh": with a separate `out`,
+    "field_separate": field route with another output field, "field_aliased": field route with `out` = the field itself} -/
+def alias (j : Json) : Except String Json := do
+  let padded ← fldQs j "padded"
+  let scale ← fldQ j "scale"
+  let junk ← fldQ j "junk"
+  let n := padded.length - 2
+  let pa := padded.toArray
+  let cells := List.range n
+  let k := PdeVerif.OutAlias.lap1 scale (2 : Rat)
+  -- wrapper: buffer 0 = the valid data `arr`, 1 = a separate `out`, 5 = the scratch buffer `arr_full`
+  let sW : PdeVerif.OutAlias.Store Rat := fun b i => if b = 0 then pa.getD (i + 1) 0 else junk
+  let prep : (Nat → Rat) → (Nat → Rat) := fun a i => if i = 0 then pa.getD 0 0 else if i = n + 1 then pa.getD (n + 1) 0 else a (i - 1)
+  let wA := PdeVerif.OutAlias.wrapperRoute prep k 0 5 0 cells sW
+  let wF := PdeVerif.OutAlias.wrapperRoute prep k 0 5 1 cells sW
+  -- field: buffer 0 = the padded buffer of the field, 1 = the padded buffer of another field
+  let sF : PdeVerif.OutAlias.Store Rat := fun b i => if b = 0 then pa.getD i 0 else junk
+  let fS := PdeVerif.OutAlias.fieldRoute id k (· + 1) 0 1 cells sF
+  let fA := PdeVerif.OutAlias.fieldRoute id k (· + 1) 0 0 cells sF
+  pure (Json.mkObj [("wrapper_aliased", jQs (cells.map (fun c => wA 0 c))), ("wrapper_fresh", jQs (cells.map (fun c => wF 1 c))),
+    ("field_separate", jQs (cells.map (fun c => fS 1 (c + 1)))), ("field_aliased", jQs (cells.map (fun c => fA 0 (c + 1))))])
+
+def handlers : List (String × Handler) := [("c03.apply", apply), ("c03.writes", writes), ("c03.seqghost", seqghost), ("c03.alias", alias)]
 end PdeVerif.Drv.C03
